@@ -218,3 +218,11 @@ def run(ctx: Ctx):
             kind = "failing-input" if where == "spec" or "what" in bad else "tie-broken"
             ctx.violation(kind, "layout", c, dict(bad, theorem="Ladim.C03.u_eq_interp / velocity_frac / scalar_latest"),
                           tags=dict(first=str(bad.get("what", "velocity")), rev=c["rev"]))
+
+    # ---- whole simulations whose first release is later than the start (the forcing must march in time from the start
+    # of the run, particles or not), frames several steps apart, one or several files, both directions
+    from harness import scen
+    ne = 40 if ctx.thorough else 10
+    ecases = [scen.gen(ctx.seed * 100000 + 3500 + k, first_release=[2, 3, 1][k % 3], nsteps=[6, 8, 10][k % 3], kills=False, continuous=bool(k % 4 == 1),
+                       rev=bool(k % 2), layout="sparse", scheme=["EF", "RK2", "RK4"][k % 3], late_release=False) for k in range(ne)]
+    scen.e2e_stream(ctx, "whole-run-late-release", ecases, "Ladim.WholeForcing.oracle_space_time / force_latest (fields of step n whatever the particle count)")
